@@ -26,7 +26,7 @@ ASSUMPTIONS = [
     "configurations excluded by construction: polarised CC, polarised N3LO, TMC for gL/g4 (hence g5 with TMC), "
     "N3LO massive NC",
 ]
-BUDGET = {"quick": {"examples": 2400, "wall": 400}, "thorough": {"examples": 40000, "wall": 3300}}
+BUDGET = {"quick": {"examples": 2400, "wall": 400}, "thorough": {"examples": 40000, "wall": 2400}}
 MANDATORY = {
     t: ["nontrivial", "tmc:on", "sv:on", "y:1", "antilepton"] + [f"kind:{k}" for k in configs.XS_KINDS]
     for t in ("quick", "thorough")
